@@ -329,8 +329,9 @@ def run_case(case) -> Outcome:
             continue
         off = bus.physical(v)
         if name in selfptr:
-            if sum(1 for a, d in real["blocks"] if a < off + 3 and off < a + len(d)) != 1:
+            if sum(1 for a, d in real["blocks"] if a < off + 3 and off < a + len(d)) > 1:
                 continue  # overlapping *= regions: a later block may legitimately overwrite the self-pointer
+            # (no block at all at that offset is a violation like any other: the bytes after the label are not where it says)
             n_bb += 1
             got = bytes(image.get(off + i, -1) & 0xFF if image.get(off + i) is not None else 0 for i in range(3)) if all((off + i) in image for i in range(3)) else None
             if got != v.to_bytes(3, "little"):
